@@ -1,6 +1,6 @@
 (** Extraction of the executable models for the correspondence runs.
     ExtrOcamlBasic only; N, positive, nat stay extracted datatypes. *)
 From Coq Require Import Extraction ExtrOcamlBasic.
-From RV Require Import Model.Base Model.Storage.
+From RV Require Import Model.Base Model.Storage Model.Decoder Inst.Run.
 Extraction Language OCaml.
-Extraction "model.ml" Storage.c19_run_case Storage.tok_of_len.
+Extraction "model.ml" Storage.c19_run_case Storage.tok_of_len Run.c11_run_case.
